@@ -39,4 +39,74 @@ func (p *Pool) Put(x any) {
 	p.free = append(p.free, x)
 }
 
-// Map is not provided: a use of sync.Map fails the instrumented build loudly (INFRA-ERROR).
+// Locker mirrors sync.Locker.
+type Locker interface {
+	Lock()
+	Unlock()
+}
+
+// Cond replaces sync.Cond: waiters are queued in arrival order; Signal wakes the oldest.
+type Cond struct {
+	L       Locker
+	waiters []*mc.Chan[struct{}]
+}
+
+func NewCond(l Locker) *Cond { return &Cond{L: l} }
+
+func (c *Cond) Wait() {
+	ch := mc.NewChan[struct{}](1, "cond.wait")
+	c.waiters = append(c.waiters, ch)
+	c.L.Unlock()
+	ch.Recv()
+	c.L.Lock()
+}
+
+func (c *Cond) Signal() {
+	mc.Yield()
+	if len(c.waiters) > 0 {
+		w := c.waiters[0]
+		c.waiters = c.waiters[1:]
+		w.Send(struct{}{})
+	}
+}
+
+func (c *Cond) Broadcast() {
+	mc.Yield()
+	ws := c.waiters
+	c.waiters = nil
+	for _, w := range ws {
+		w.Send(struct{}{})
+	}
+}
+
+// Map replaces sync.Map (every operation is a scheduling point).
+type Map struct{ m map[any]any }
+
+func (m *Map) Load(k any) (any, bool) { mc.Yield(); v, ok := m.m[k]; return v, ok }
+func (m *Map) Store(k, v any) {
+	mc.Yield()
+	if m.m == nil {
+		m.m = map[any]any{}
+	}
+	m.m[k] = v
+}
+func (m *Map) Delete(k any) { mc.Yield(); delete(m.m, k) }
+func (m *Map) LoadOrStore(k, v any) (any, bool) {
+	mc.Yield()
+	if x, ok := m.m[k]; ok {
+		return x, true
+	}
+	if m.m == nil {
+		m.m = map[any]any{}
+	}
+	m.m[k] = v
+	return v, false
+}
+func (m *Map) Range(f func(k, v any) bool) {
+	mc.Yield()
+	for k, v := range m.m {
+		if !f(k, v) {
+			return
+		}
+	}
+}
